@@ -107,6 +107,26 @@ def trait_formula(M, L, counts, total_data):
     return size + total_data
 
 
+def group_trait_formula(M, g, counts, total_data):
+    """size of a group instance with counts[0] entries and the given TOTAL entry counts of its nested groups (pre-order)"""
+    sub = [g] + preorder_groups(g)
+    size = g.dimension.size
+    for x, n in zip(sub, counts):
+        size += n * (x.block_length + sum(c.dimension.size for c in x.groups) + sum(d.header_size for d in x.data))
+    return size + total_data
+
+
+def preorder_data(L):
+    res = []
+
+    def walk(x):
+        res.extend(x.data)
+        for g in x.groups:
+            walk(g)
+    walk(L)
+    return res
+
+
 def args_representable(M, L, which, args):
     from vlib.schemagen import prim_range
     groups = preorder_groups(L)
@@ -169,6 +189,77 @@ def run(t, budget=1.0):
                         pc.fail("size-mismatch:flat-group-big-product", entry,
                                 {"cmd": line, "config": cfg, "expected": "OK gsize=%d n=%d" % (expv, nv), "actual": resp},
                                 "[%s] size_bytes of flat group %s with numInGroup=%d blockLength=%d: expected %d, got %s" % (cfg, g0.name, nv, bv, expv, resp[:100]))
+            return
+        pdata = preorder_data(L)
+        if pdata and data.draw(st.integers(0, 7)) == 0:
+            # (1) data_traits<>::size_bytes(n) for any n of the length type; (2) run-time size of the first root-level data
+            # member of a group-less message from its length prefix alone (payload not in memory, as for flat groups)
+            from vlib.schemagen import prim_range
+            di = data.draw(st.integers(0, len(pdata) - 1))
+            d = pdata[di]
+            ltop = prim_range(d.length_prim)[1]
+            pick = data.draw(st.one_of(st.sampled_from(sorted({0, 1, ltop, ltop - 1, ltop // 2 + 1, min(ltop, 255), min(ltop, 65535), min(ltop, 65536), min(ltop, 2 ** 31), min(ltop, 2 ** 32 - 1), min(ltop, 2 ** 32), min(ltop, 2 ** 63 - 100)})),
+                                       st.integers(0, ltop)))
+            expv = d.header_size + pick
+            if expv < 2 ** 64:
+                line = "dtsize %d %d %d" % (mi, di, pick)
+                if pick >= 2 ** 16:
+                    res.nontriv(common.text_hash(entry.dir, line))
+                res.cls("data_trait_any_length")
+                for cfg in entry.value_configs():
+                    resp = pc.call(entry, cfg, line)
+                    res.count()
+                    if resp != "OK trait=%d" % expv:
+                        pc.fail("size-mismatch:data-trait", entry, {"cmd": line, "config": cfg, "expected": "OK trait=%d" % expv, "actual": resp},
+                                "[%s] data_traits size_bytes(%d) of data member #%d of %s: expected %d, got %s" % (cfg, pick, di, L.name, expv, resp[:100]))
+            if L.data and not L.groups and expv < 2 ** 63:
+                d0 = L.data[0]
+                lm0 = M.member(d0.encoding, "length")
+                top0 = prim_range(d0.length_prim)[1]
+                nv = min(pick, top0) if data.draw(st.booleans()) else data.draw(st.sampled_from(sorted({0, 1, top0, top0 - 1, min(top0, 2 ** 31), min(top0, 2 ** 32 + 1), min(top0, 2 ** 62)})))
+                empty = {"fields": data.draw(values.level_values(L, max_entries=0))["fields"], "groups": {}, "data": {x.name: b"" for x in L.data}}
+                img, size = M.encode_message(L, empty, background=0)
+                dpos = M.header.size + L.block_length
+                b = bytearray(img[:dpos + d0.header_size])
+                M.put_member(b, dpos, lm0, nv)
+                line = "dsize %d %s" % (mi, bytes(b).hex())
+                want = "OK dsize=%d n=%d" % (d0.header_size + nv, nv)
+                if nv >= 2 ** 16:
+                    res.nontriv(common.text_hash(entry.dir, line))
+                res.cls("data_prefix_only_size")
+                for cfg in entry.value_configs():
+                    resp = pc.call(entry, cfg, line)
+                    res.count()
+                    if resp != want:
+                        pc.fail("size-mismatch:data-big-length", entry, {"cmd": line, "config": cfg, "expected": want, "actual": resp},
+                                "[%s] size_bytes of data %s with length=%d: expected %s, got %s" % (cfg, d0.name, nv, want, resp[:100]))
+            return
+        if groups and data.draw(st.integers(0, 6)) == 0:
+            # group-level trait formula with large counts (no image)
+            from vlib.schemagen import prim_range
+            gi = data.draw(st.integers(0, len(groups) - 1))
+            g = groups[gi]
+            sub = [g] + preorder_groups(g)
+            counts = []
+            for x in sub:
+                top = prim_range(M.member(x.dimension, "numInGroup").prim)[1]
+                counts.append(data.draw(st.one_of(st.sampled_from(sorted({0, 1, top, top - 1, top // 2 + 1, min(top, 65535), min(top, 65536), min(top, 2 ** 31), min(top, 2 ** 32 - 1)})),
+                                                  st.integers(0, top))))
+            total = data.draw(st.sampled_from([0, 1, 2 ** 16, 2 ** 32 + 5])) if has_data_anywhere(g) else 0
+            expv = group_trait_formula(M, g, counts, total)
+            if expv < 2 ** 64:
+                args = counts + ([total] if has_data_anywhere(g) else [])
+                line = "tsize %d %d %s" % (mi, gi + 1, " ".join(str(a) for a in args))
+                if max(counts + [0]) >= 2 ** 16:
+                    res.nontriv(common.text_hash(entry.dir, line))
+                res.cls("group_trait_big_counts")
+                for cfg in entry.value_configs():
+                    resp = pc.call(entry, cfg, line)
+                    res.count()
+                    if resp != "OK trait=%d" % expv:
+                        pc.fail("size-mismatch:trait-group-big-counts", entry,
+                                {"cmd": line, "config": cfg, "expected": "OK trait=%d" % expv, "actual": resp},
+                                "[%s] group %s trait size_bytes(%s): expected %d, got %s" % (cfg, g.name, args, expv, resp[:100]))
             return
         if groups and data.draw(st.integers(0, 4)) == 0:
             # trait formula with large counts (no image): every numInGroup value up to the type maximum
